@@ -88,7 +88,7 @@ func runC02(cfg *vh.Config) error {
 		Type:   "c02case",
 		Check:  "c02_check",
 	}
-	n := cfg.Scale(300, 3000)
+	n := cfg.Scale(250, 3000)
 	distinct := vh.Distinct{}
 	const perShard = 40
 	stats := map[string]int{}
